@@ -39,7 +39,7 @@ package transaction
 //@   ite(is(c, *ConditionScriptHash), util.Uint160(*c.(*ConditionScriptHash)) == ctx.cur,
 //@   ite(is(c, *ConditionGroup), grp(ctx, ctx.cur, (*keys.PublicKey)(c.(*ConditionGroup))),
 //@   ite(is(c, ConditionCalledByEntry), ctx.cbe,
-//@   ite(is(c, *ConditionCalledByContract), util.Uint160(*c.(*ConditionCalledByContract)) == ctx.calling,
+//@   ite(is(c, *ConditionCalledByContract), ctx.calling != util.Uint160{} && util.Uint160(*c.(*ConditionCalledByContract)) == ctx.calling,
 //@   ite(is(c, *ConditionCalledByGroup), grp(ctx, ctx.calling, (*keys.PublicKey)(c.(*ConditionCalledByGroup))),
 //@       false)))))))))
 
